@@ -454,7 +454,45 @@ def run(rep, tier):
             continue
         a = arm_of[kind]
         if len([x for x in a['names'] if x]) > 1:
-            continue            # shared arm (EQ/NE): not a one-operator arm
+            # shared arm: the operator of `kind` must be applied to the two evaluated operands under the test of node->type
+            # for `kind` (nested switch, if-chain or conditional), or as the one unguarded remainder of such a chain
+            evald = set()
+            for st in a['eff']:
+                for x in sub(st):
+                    if x['k'] == 'DeclStmt':
+                        for d_ in x.get('decls', []):
+                            if 'init' in d_ and any(y.get('callee', {}).get('q', '').endswith(('dataToInt', 'evaluateExpr', 'dataToBool')) for y in sub(d_['init'])):
+                                evald.add(d_['lid'])
+            kinds_here = {nm for nm in a['names'] if nm}
+
+            def kinds_guarding(x):
+                ks = set()
+                child = x
+                for anc in ev.ancestors(x):
+                    if anc is a['node'] or anc['k'] == 'SwitchStmt' and any(y is a['node'] for y in sub(anc)):
+                        break
+                    if anc['k'] in ('IfStmt', 'ConditionalOperator') and len(anc.get('c', [])) > 1 and any(y is x for y in sub(anc['c'][1])):
+                        ks |= {y['ref'].get('name') for y in sub(anc['c'][0]) if y['k'] == 'DeclRefExpr' and y.get('ref', {}).get('name') in kinds_here}
+                    if anc['k'] == 'SwitchStmt':
+                        for a2 in tab.switch_arms(anc):
+                            if any(y is x for st2 in a2['stmts'] for y in sub(st2)):
+                                ks |= {nm for nm in a2['names'] if nm in kinds_here}
+                return ks
+            apps = []
+            for st in a['eff']:
+                for x in sub(st):
+                    if x['k'] == 'BinaryOperator' and x.get('op') == cop and len(x.get('c', [])) == 2:
+                        opnds = [strip(k_) for k_ in x['c']]
+                        if all(o and o['k'] == 'DeclRefExpr' and o.get('ref', {}).get('lid') in evald and (o.get('t') or '').replace('const ', '') in (('bool', '_Bool') if cop in ('&&', '||') else ('int',)) for o in opnds) and \
+                                opnds[0]['ref']['lid'] != opnds[1]['ref']['lid']:
+                            g_ = kinds_guarding(x)
+                            if g_ == {kind} or not g_:
+                                apps.append((x, g_))
+            nops += 1
+            rep.check(bool(apps), 'R17.6', kind, locstr(a['node']), 'shared arm of %s: `%s` %s' % (sorted(kinds_here), cop,
+                      'is applied to the two evaluated operands under the test for %s' % kind if apps else
+                      'is NOT applied to the two evaluated operands under the test for %s (a derived quantity such as left - right overflows for operands of opposite sign)' % kind))
+            continue
         bins = []
         for st in a['eff']:
             for x in sub(st):
